@@ -3785,7 +3785,11 @@ let move_to_line_down seg0 width n0 prompt_col =
           in
           let offset = if Nat.eqb line_start O then prompt_col else O in
           bind (lift (slice b.buf line_start b.pos)) (fun cur ->
-            let column = add (width cur) offset in
+            let column =
+              Nat.min (add (width cur) offset)
+                (N.to_nat (Npos (XI (XI (XI (XI (XI (XI (XI (XI (XI (XI (XI
+                  (XI (XI (XI (XI XH)))))))))))))))))
+            in
             let ds0 = add (add b.pos off) (S O) in
             bind (lift (slice_from b.buf ds0)) (fun r2 ->
               let de0 =
